@@ -29,7 +29,8 @@
 (*                applied the state is overwritten with one that matches   *)
 (*                no notification (base.rs:1026-1043)                      *)
 (*   "pre_fix"    the tree before that change: no such mark.  Safe against *)
-(*                kills as long as the server is honest, because every     *)
+(*                kills as long as the server is honest and no cache       *)
+(*                presents old notifications (Caches = FALSE), because every *)
 (*                element re-applied by a later run meets its hash         *)
 (*                precondition or makes the run fall back to the snapshot  *)
 (*   "pre_fix_no_precond"  pre_fix without the hash preconditions: TLC     *)
@@ -50,6 +51,7 @@ CONSTANTS NObj,        \* objects are 1..NObj
           MaxVer,      \* number of server versions
           MaxKills,
           MaxRuns,     \* client runs started
+          Caches,      \* BOOLEAN: may a cache present an older notification again (StaleCache)?
           Variant
 
 Objs   == 1..NObj
@@ -109,6 +111,7 @@ Publish ==
 
 (* A cache presents an older notification again (or the newest one after that). *)
 StaleCache ==
+  /\ Caches
   /\ pc = "idle"
   /\ \E a \in 1..Len(srv) : a # ann /\ ann' = a
   /\ reported' = FALSE
